@@ -13,8 +13,15 @@ CLAIMS = {
    text="Contracts on the real one-variable loop functions (extracted from /repo on every run): for ALL x in [1e-14,1e12] every path "
         "(closed form and Taylor window) is within 1e-7 relative of the published definition (back end B: WP + z3 over reals with "
         "series enclosures of ln and Li2); documented values at 0, 1/4, 1, NaN on [-1e12,-1e-14] and an empty write frame are IEEE-754 "
-        "facts proved by CBMC code contracts (back end A, goto-instrument --dfcc --enforce-contract).",
-   note=NOTE_COMMON + "Undecided remainder (not claimed): IEEE rounding inside each branch, f_PS/f_S/F1..F3 accuracy vs definition beyond the listed obligations, complex dilog.",
+        "facts proved by CBMC code contracts (back end A, goto-instrument --dfcc --enforce-contract).  f_PS equals its published dilogarithm form on 0<z<1/4 (inversion/reflection "
+        "of Li2 substituted, identity in y, Li2(-q), logs) and the Clausen form above 1/4; f_S, f_sferm, f_CSl, F1, F1~, F2, F3 are their published combinations of f_PS, ln, Li2 on every "
+        "closed-form path and within 1e-7 on every expansion path (large-/small-z enclosures of f_PS from the Barr-Zee integral).  Real dilogarithm: every path is a documented functional "
+        "equation of Li2 applied inside its domain (matched by content) around the code's Pade core, which is within 5e-14 of the power series on the whole interval the paths use; Clausen "
+        "function: documented argument reduction (odd, 2 pi periodic, reflection; the two-term 2 pi within 1e-19) around two Pade kernels within 1e-14 of the Bernoulli series; complex "
+        "dilogarithm: every branch enters the Bernoulli series inside its domain of fast convergence.",
+   note=NOTE_COMMON + "Undecided remainder (not claimed): IEEE rounding inside each branch (in particular cancellation in the closed forms at large argument and the relative accuracy of Cl2 "
+        "next to its zeros, where the rounded argument dominates); truncation of the complex Bernoulli series and its coefficient table; relative accuracy of the real dilogarithm next to "
+        "the zero of Re Li2 at x = 12.595 (absolute 5e-14 Li2(y) only).",
    technique="code contracts on extracted real functions: WP/SMT (z3 NRA) + CBMC DFCC contracts", design='5 C01'),
  'C02': dict(
    text="Contracts on the real multi-variable loop functions: sort's contract (ascending permutation); SYMMETRY of Fa, Fb, FPZ, FSZ, FCWl, Iabc, Phi under every rearrangement and tie "
@@ -49,11 +56,13 @@ CLAIMS = {
         "mixing matrix when it is filled); exact INVERSION identities through the real mass-matrix functions (sneutrino matrix == pole^2 after convert_ml2; the fixed-point updates assign exactly "
         "the M2/mu/M1 entries and subtract exactly the D-/F-term part of the smuon (1,1) entry); WARN-OR-FIT as ghost flag traces (convert_me2: one flag operation, on its own flag, set iff the "
         "achieved precision exceeds the goal, root finder tried iff the FPI missed; convert_Mu_M1_M2: if the flag is cleared the FINAL chargino and bino-like neutralino masses are within the goal, "
-        "else the reported precision is their distance -- loop unrolled for max_iterations 0,1,2 with the spectrum routines as functions of the parameters: BOUNDED in the iteration count); "
+        "else the reported precision is their distance -- by a LOOP CONTRACT (inductive invariant + frame + variant, no unrolling: any number of iterations) with the spectrum routines as "
+        "functions of the parameters; likewise the fixed-point loop for mse2(2,2): its loop contract shows that the achieved precision handed to convert_me2 IS the distance of the final "
+        "right-like smuon from its pole mass, the wrapper keeps that, and convert_me2 clears its flag only if that distance is within the goal); "
         "PRESERVATION frames (no later step of convert_to_onshell writes what a fitted mass matrix reads).",
    note=NOTE_COMMON + "Convergence of the iterations, conditioning and parameter recovery are numerical statements outside contracts (not decided); diagonalisations under A-LINALG. "
-        "The Mu/M1/M2 loop obligations are bounded (<= 2 iterations) and labelled so.  One open finding: the Yukawa update after the smuon fit moves the right-like smuon off its pole mass without warning.",
-   technique="symbolic execution with callee contracts (spectrum routines as functions of the parameters, flag operations as ghost traces), ring identities through the real mass-matrix code, frame inference", design='5 C05'),
+        "ASSUMED: the contract of convert_me2_root_modify (boost TOMS748 and a local functor class are outside the extractor).  One open finding: the Yukawa update after the smuon fit moves the right-like smuon off its pole mass without warning.",
+   technique="loop contracts (invariant/frame/variant, Hoare rule over the extracted while loops) + symbolic execution with callee contracts (flag operations as ghost traces), ring identities through the real mass-matrix code, frame inference", design='5 C05'),
  'C06': dict(
    text="Relational contracts f(state) == f(flipped state) on the real MSSM functions, proved as rational-function identities for ALL parameter values: every leading-log one-loop term, "
         "amu1Lapprox with and without resummation, tan_beta_cor, Delta_mu/tau/b, the two-loop fermion/sfermion approximations and their log corrections are invariant under negating "
@@ -67,7 +76,9 @@ CLAIMS = {
    text="Decoupling as a units (mass-dimension) contract on the real MSSM a_mu, correction and uncertainty functions: the extracted code is interpreted over dimensions (masses 1, squared "
         "masses 2, couplings and mixings 0); every sum, difference, comparison and conditional joins equal dimensions, logarithms and loop functions receive dimensionless arguments, "
         "Iabc has dimension -2, and every function returns a dimensionless number on ALL paths.  Hence each contribution is exactly homogeneous of degree 0 under a common rescaling of all "
-        "dimensionful inputs, i.e. it falls like 1/k^2 through its explicit m_mu^2 prefactor when only the SUSY scale is raised; the 2L uncertainty is >= its floor.",
+        "dimensionful inputs, i.e. it falls like 1/k^2 through its explicit m_mu^2 prefactor when only the SUSY scale is raised; the 2L uncertainty is >= its floor.  The one-variable loop "
+        "functions the contributions call (F1C..F4N, f_PS, f_S, f_sferm) are their published, at most logarithmically growing definitions on every path incl. expansion windows "
+        "(C01's definition contracts re-registered as callee contracts).",
    note=NOTE_COMMON + "NOT decided: the size of the O((MZ/M_SUSY)^2) corrections and the numerical ratios of the quantifier (asymptotic statements); the units interpretation shares the extractor/interpreter "
         "with the other back ends; field dimensions are assigned from the documentation of MSSMNoFV_onshell.",
    technique="abstract interpretation of the extracted code over mass dimensions (units contract), all paths", design='5 C07'),
@@ -94,7 +105,8 @@ CLAIMS = {
    text="SM-limit clause as relational contracts on the real kernels, for ALL parameter values: with y_f^h = diag(m_f)/v (cos(beta-alpha)=0), the model relation "
         "v^2 = 4 MW^2 sw^2/(4 pi alpha) and m_h = m_hSM = m, amu1L and amu2L_F_neutral are independent of the common mass m (the light-Higgs terms cancel the subtracted "
         "SM terms identically, loop functions uninterpreted); amu2L_B_EWadd is proportional to cos(beta-alpha) zeta_l; amu2L_B_Yuk(cba) - amu2L_B_Yuk(0) at m_H = m_hSM "
-        "reduces to the single term YF2 zeta_l cba (the difference coefficients a001, a501, a5z1 vanish); the three parameter fillers hand exactly the documented model getters to the kernels.",
+        "reduces to the single term YF2 zeta_l cba (the difference coefficients a001, a501, a5z1 vanish); the three parameter fillers hand exactly the documented model getters to the kernels; "
+        "callee contracts re-registered: dxlog series (C11), definitions of f_PS, f_S, f_CSl, F1, F1~, F2, F3 (C01).",
    note=NOTE_COMMON + "NOT decided (stated): the decoupling rate (v/M)^2 of the genuine BSM terms (an asymptotic statement outside contracts); the chain model -> y_f^h = m_f/v at cos(beta-alpha)=0 "
         "uses C09's getter contracts; ring normalisation (sympy) is in the trusted base for the two rational-function identities.",
    technique="relational lemmas: symbolic execution of extracted kernels + z3 NRA / ring normalisation (sympy)", design='5 C10'),
